@@ -117,6 +117,56 @@ func checkInstance(c InstCase, o *vcore.Obs) error {
 		}
 		sub.Close()
 	}()
+	// a subscriber that follows TWO topics: when a listing shows a peer snapshot that has not been loaded yet, it waits
+	// for that load before it looks at the next listing (meanwhile it does not receive on the listing topic: the
+	// receiver's poll goroutine waits for it - by design - but the sync loop must get on and load the snapshot)
+	if !c.Corrupt && !c.Faults && !c.StuckAtStart {
+		var lmu sync.Mutex
+		loaded := map[string]time.Time{}
+		wg.Add(2)
+		go func() {
+			defer wg.Done()
+			sub := ev.UpdateLoaded.Subscribe(false)
+			defer sub.Close()
+			for {
+				u, err := sub.Next(subCtx)
+				if err != nil {
+					return
+				}
+				lmu.Lock()
+				if u.NameInfo.Timestamp.After(loaded[u.NameInfo.InstanceID]) {
+					loaded[u.NameInfo.InstanceID] = u.NameInfo.Timestamp
+				}
+				lmu.Unlock()
+			}
+		}()
+		go func() {
+			defer wg.Done()
+			sub := ev.LastSeenSnapshotByInstance.Subscribe(false)
+			defer sub.Close()
+			for {
+				m, err := sub.Next(subCtx)
+				if err != nil {
+					return
+				}
+				for inst, ni := range m {
+					if inst == "x" {
+						continue
+					}
+					for subCtx.Err() == nil {
+						lmu.Lock()
+						ok := !loaded[inst].Before(ni.Timestamp)
+						lmu.Unlock()
+						if ok {
+							break
+						}
+						time.Sleep(200 * time.Microsecond)
+					}
+				}
+			}
+		}()
+		o.Class("subscriber-that-waits-for-the-load-of-what-a-listing-announced")
+	}
 	// the application
 	var stopWriters atomic.Bool
 	wg.Add(1)
